@@ -35,10 +35,12 @@ class BModel(KModel):
                     c = (b if x == sa else a).const()
                     lo = self.scn['ndim_min']        # ndim >= lo is all that is known
                     self.questions.append(('ndim', o, c))
-                    if c <= lo:
-                        return {'lt': False, 'le': c == lo and None, 'gt': c < lo or None, 'ge': True, 'eq': None, 'ne': None}[o] \
-                            if {'lt': False, 'ge': True}.get(o) is not None else self._undecided(op, a, b, e)
-                    return self._undecided(op, a, b, e)
+                    # all that is known of a symbolic rank: ndim >= lo
+                    ans = {'lt': False if c <= lo else None, 'le': False if c < lo else None, 'gt': True if c < lo else None,
+                           'ge': True if c <= lo else None, 'eq': False if c < lo else None, 'ne': True if c < lo else None}[o]
+                    if ans is None:
+                        return self._undecided(op, a, b, e)
+                    return ans
                 if x.startswith('d') and x[1:].isdigit() and y == 'MIN':
                     short = self.scn['short'][int(x[1:])]
                     self.questions.append(('min', int(x[1:]), o))
@@ -53,6 +55,22 @@ class BModel(KModel):
                     self.questions.append(('len', axis, o))
                     return {'eq': ok, 'ne': not ok}.get(o) if o in ('eq', 'ne') else self._undecided(op, a, b, e)
         return super().compare(op, a, b, e)
+
+    def slice_pattern(self, obj, npre, nsuf, has_rest):
+        if obj.kind != 'shape':
+            return NotImplemented
+        n = self.scn['ndim']
+        if isinstance(n, int):
+            if (n < npre + nsuf) or (not has_rest and n != npre + nsuf):
+                return None
+            idx = list(range(npre)) + list(range(n - nsuf, n))
+            return [ValPlace(Num(Rat.atom('d%d' % k))) for k in idx]
+        lo = self.scn['ndim_min']
+        if has_rest and nsuf == 0 and npre <= lo:
+            return [ValPlace(Num(Rat.atom('d%d' % k))) for k in range(npre)]
+        if not has_rest and npre + nsuf < lo:
+            return None
+        raise Unsupported("slice pattern on data.shape() needs the exact rank, which the builder may not depend on")
 
     def _undecided(self, op, a, b, e):
         raise Unsupported("comparison %s between %r and %r is outside the builder's decision table" % (op, a, b), e)
@@ -109,6 +127,20 @@ class BModel(KModel):
                 return self.ndim_value()
             if last == 'shape' and a0.d['role'] == 'data':
                 return Ref(ValPlace(Obj('shape', of=a0)))
-            if last == 'len' and a0.d['role'] == 'axis':
+            if last in ('len', 'dim', 'raw_dim') and a0.d['role'] == 'axis':
                 return Num(Rat.atom('len_' + a0.d['name']))
+            if last == 'len_of' and a0.d['role'] in ('axis', 'data'):
+                ax = deref_all(args[1])
+                k = deref_all(ax.fields.get('0')) if isinstance(ax, Enum) else None
+                if isinstance(k, Num) and k.const() is not None:
+                    k = int(k.const())
+                    if a0.d['role'] == 'axis':
+                        if k == 0:
+                            return Num(Rat.atom('len_' + a0.d['name']))
+                        raise Diverge("len_of(Axis(%d)) of a one-dimensional axis" % k, e)
+                    n = self.scn['ndim']
+                    lo = n if isinstance(n, int) else self.scn['ndim_min']
+                    if k < lo:
+                        return Num(Rat.atom('d%d' % k))
+                    raise Diverge("len_of(Axis(%d)) of data of rank %s" % (k, n), e)
         return super().call(name, cal, args, e, frame)
